@@ -80,15 +80,19 @@ Record world := {
      paths of the upgrade the journal belongs to, whether its snapshot completed, and the
      version current-manifest named at that time *)
   g_base : option ghost;
-  g_inst : ver }.                          (* ghost: version the installed artifacts belong to *)
+  g_inst : ver;                            (* ghost: version the installed artifacts belong to *)
+  g_fs0 : path -> option file;             (* ghost: the whole tree when the journal's upgrade began *)
+  g_clean : bool }.                        (* ghost: no operator edit since then *)
 
-Definition set_fs w f := {| fs := f; cur := cur w; jr := jr w; snaps := snaps w; obst := obst w; g_base := g_base w; g_inst := g_inst w |}.
-Definition set_cur w c := {| fs := fs w; cur := c; jr := jr w; snaps := snaps w; obst := obst w; g_base := g_base w; g_inst := g_inst w |}.
-Definition set_jr w j := {| fs := fs w; cur := cur w; jr := j; snaps := snaps w; obst := obst w; g_base := g_base w; g_inst := g_inst w |}.
-Definition set_snaps w s := {| fs := fs w; cur := cur w; jr := jr w; snaps := s; obst := obst w; g_base := g_base w; g_inst := g_inst w |}.
-Definition set_obst w o := {| fs := fs w; cur := cur w; jr := jr w; snaps := snaps w; obst := o; g_base := g_base w; g_inst := g_inst w |}.
-Definition set_gbase w g := {| fs := fs w; cur := cur w; jr := jr w; snaps := snaps w; obst := obst w; g_base := g; g_inst := g_inst w |}.
-Definition set_ginst w v := {| fs := fs w; cur := cur w; jr := jr w; snaps := snaps w; obst := obst w; g_base := g_base w; g_inst := v |}.
+Definition set_fs w f := {| fs := f; cur := cur w; jr := jr w; snaps := snaps w; obst := obst w; g_base := g_base w; g_inst := g_inst w; g_fs0 := g_fs0 w; g_clean := g_clean w |}.
+Definition set_cur w c := {| fs := fs w; cur := c; jr := jr w; snaps := snaps w; obst := obst w; g_base := g_base w; g_inst := g_inst w; g_fs0 := g_fs0 w; g_clean := g_clean w |}.
+Definition set_jr w j := {| fs := fs w; cur := cur w; jr := j; snaps := snaps w; obst := obst w; g_base := g_base w; g_inst := g_inst w; g_fs0 := g_fs0 w; g_clean := g_clean w |}.
+Definition set_snaps w s := {| fs := fs w; cur := cur w; jr := jr w; snaps := s; obst := obst w; g_base := g_base w; g_inst := g_inst w; g_fs0 := g_fs0 w; g_clean := g_clean w |}.
+Definition set_obst w o := {| fs := fs w; cur := cur w; jr := jr w; snaps := snaps w; obst := o; g_base := g_base w; g_inst := g_inst w; g_fs0 := g_fs0 w; g_clean := g_clean w |}.
+Definition set_gbase w g := {| fs := fs w; cur := cur w; jr := jr w; snaps := snaps w; obst := obst w; g_base := g; g_inst := g_inst w; g_fs0 := g_fs0 w; g_clean := g_clean w |}.
+Definition set_ginst w v := {| fs := fs w; cur := cur w; jr := jr w; snaps := snaps w; obst := obst w; g_base := g_base w; g_inst := v; g_fs0 := g_fs0 w; g_clean := g_clean w |}.
+
+Definition set_gfs0 w f c := {| fs := fs w; cur := cur w; jr := jr w; snaps := snaps w; obst := obst w; g_base := g_base w; g_inst := g_inst w; g_fs0 := f; g_clean := c |}.
 
 Definition upd {A} (f : N -> A) (k : N) (v : A) : N -> A := fun q => if N.eqb q k then v else f q.
 
@@ -321,8 +325,8 @@ Definition apply_flow (v : variant) (T : tarball) (F : faults) (w : world) : wor
   let from := cur w in
   let arts := t_arts T in
   let base := base_of w arts in
-  let w0 := set_gbase (set_jr w (Some {| j_from := from; j_to := t_to T; j_phase := PStarted |}))
-                      (Some (false, base, cur w)) in
+  let w0 := set_gfs0 (set_gbase (set_jr w (Some {| j_from := from; j_to := t_to T; j_phase := PStarted |}))
+                                (Some (false, base, cur w))) (fs w) true in
   if crash_at F 25 then (w0, RCrash) else
   let '(w1, ok) := do_snapshot v w0 from arts in
   if negb ok then (w1, RErr) else
@@ -384,6 +388,32 @@ Definition mon_restored (w : world) : mon :=
   | _ => MonNa
   end.
 
+(* what a path RESOLVES to: the bytes read through it (symlink targets are node ids: artifact paths,
+   auxiliary files outside the artifact directories, or ids of nothing = dangling) *)
+Fixpoint resolve (f : path -> option file) (p : path) (fuel : nat) : option content :=
+  match fuel with
+  | O => None                                  (* ELOOP *)
+  | S k => match f p with
+           | Some (Reg c _) => Some c
+           | Some (Sym t) => resolve f t k
+           | _ => None
+           end
+  end.
+Definition ocontent_eqb (a b : option content) : bool :=
+  match a, b with Some x, Some y => N.eqb x y | None, None => true | _, _ => false end.
+
+(* after a reported rollback every artifact path of the upgrade must resolve to the bytes it resolved to
+   before the upgrade, provided no operator edit happened in between *)
+Definition mon_resolved (w : world) : mon :=
+  match g_base w with
+  | Some (true, l, _) =>
+      if g_clean w then
+        if forallb (fun pf => ocontent_eqb (resolve (fs w) (fst pf) 16) (resolve (g_fs0 w) (fst pf) 16)) l
+        then MonOk else MonMixed
+      else MonNa
+  | _ => MonNa
+  end.
+
 (* after a reported success current-manifest must name the version of the tree the operation
    claims to have produced: the tarball's version, resp. the version named when the restored
    tree was snapshotted *)
@@ -413,10 +443,17 @@ Definition step (v : variant) (w : world) (o : op) : world * (res * mon) :=
       | RbCrash => (w', (RCrash, MonNone))
       end
   | OpClear => (set_obst w (fun _ => None), (RCleared, MonNone))
-  | OpEdit p f => (set_fs w (upd (fs w) p f), (REdited, MonNone))
+  | OpEdit p f => (set_gfs0 (set_fs w (upd (fs w) p f)) (g_fs0 w) false, (REdited, MonNone))
   end.
 
 (* the version monitor of the operation that led from w to w' with result r *)
+Definition step_res (o : op) (w' : world) (r : res) : mon :=
+  match o, r with
+  | OpApply _ _ _, RErrRolledBack => mon_resolved w'
+  | OpRollback _, RRbOk => mon_resolved w'
+  | _, _ => MonNone
+  end.
+
 Definition step_ver (o : op) (w' : world) (r : res) : mon :=
   match o, r with
   | OpApply T _ _, ROk => ver_new w' T
@@ -438,7 +475,8 @@ Fixpoint run (v : variant) (w : world) (ops : list op) : list (world * (res * mo
   end.
 
 Definition init_world (c : ver) (f : path -> option file) : world :=
-  {| fs := f; cur := c; jr := None; snaps := fun _ => None; obst := fun _ => None; g_base := None; g_inst := c |}.
+  {| fs := f; cur := c; jr := None; snaps := fun _ => None; obst := fun _ => None; g_base := None; g_inst := c;
+     g_fs0 := f; g_clean := true |}.
 
 Definition repaired : variant := {| v_mode_fix := true; v_curm_fix := true |}.
 Definition defective : variant := {| v_mode_fix := false; v_curm_fix := false |}.
